@@ -411,7 +411,7 @@ def ScriptedG (cfg : Cfg) (n : Nat) (p : Op × Res) : Prop :=
   (p.2 = .closedPool → 1 ≤ n ∧ p.1.kind = 0) ∧
   (p.2 = .emptyPool → cfg.block = true ∧ cfg.timeout = true ∧ p.1.kind = 0) ∧
   (p.2 = .failed → ∃ f st, p.1 = .req f .fail st) ∧
-  (p.2 = .ok → ∀ f l st, p.1 = .req f l st → l = .ok)
+  (p.2 = .ok → ∀ f l st, p.1 = .req f l st → l ≠ .fail)
 
 structure InvS (s : State) : Prop where
   last : ∀ (t : Nat) (th : Thread), s.threads[t]? = some th → lastOK th
